@@ -1442,7 +1442,7 @@ func TestVerifC10(t *testing.T) {
 			c := vclassifier(th)
 			every := 10
 			if th < 0.5 {
-				limit, every = 30*time.Minute, 60
+				limit, every = 30*time.Minute, 300
 			}
 			for i, in := range inputs {
 				if i%every == 0 {
